@@ -121,6 +121,9 @@ func mkInt(k types.BasicKind, v *big.Int) value {
 func (p *pathRun) bvOf(x value) *smt.Term {
 	switch x := x.(type) {
 	case symInt:
+		if x.t.Sort.K == smt.KInt {
+			return p.ctx.Int2BV(kindWidth(x.k), x.t)
+		}
 		return x.t
 	}
 	k, ok := kindOf(x)
@@ -203,6 +206,9 @@ func (p *pathRun) symBinop(fr *frame, op token.Token, t types.Type, x, y value) 
 	k, ok := kindOf(x)
 	if !ok {
 		panic(unsupported(fmt.Sprintf("symBinop %s on %T,%T", op, x, y)))
+	}
+	if intBacked(x) || intBacked(y) {
+		return p.intBinop(fr, op, k, x, y)
 	}
 	a := p.bvOf(x)
 	signed := kindSigned(k)
@@ -291,6 +297,63 @@ func (p *pathRun) symBinop(fr *frame, op token.Token, t types.Type, x, y value) 
 	panic(unsupported(fmt.Sprintf("symBinop: op %s", op)))
 }
 
+// Int-backed machine integers: lengths of abstract byte strings are kept as
+// mathematical integers (no overflow can occur: they are bounded by axiom), so
+// that length arithmetic and comparisons stay in the integer theory.
+func intBacked(v value) bool {
+	s, ok := v.(symInt)
+	return ok && s.t.Sort.K == smt.KInt
+}
+
+func (p *pathRun) intTermOf(v value) *smt.Term {
+	if s, ok := v.(symInt); ok {
+		if s.t.Sort.K == smt.KInt {
+			return s.t
+		}
+		if kindSigned(s.k) {
+			return p.ctx.BV2IntSigned(s.t)
+		}
+		return p.ctx.BV2Nat(s.t)
+	}
+	k, _ := kindOf(v)
+	if kindSigned(k) {
+		return p.ctx.IntC64(asInt64(v))
+	}
+	return p.ctx.IntC(new(big.Int).SetUint64(uint64(asInt64(v))))
+}
+
+func (p *pathRun) intBinop(fr *frame, op token.Token, k types.BasicKind, x, y value) value {
+	c := p.ctx
+	a, b := p.intTermOf(x), p.intTermOf(y)
+	mk := func(t *smt.Term) value {
+		if t.IsConst() {
+			return mkInt(k, t.Val)
+		}
+		return symInt{k, t}
+	}
+	switch op {
+	case token.ADD:
+		return mk(c.Add(a, b))
+	case token.SUB:
+		return mk(c.Sub(a, b))
+	case token.MUL:
+		return mk(c.Mul(a, b))
+	case token.EQL:
+		return normBool(c.Eq(a, b))
+	case token.NEQ:
+		return normBool(c.Not(c.Eq(a, b)))
+	case token.LSS:
+		return normBool(c.Lt(a, b))
+	case token.LEQ:
+		return normBool(c.Le(a, b))
+	case token.GTR:
+		return normBool(c.Gt(a, b))
+	case token.GEQ:
+		return normBool(c.Ge(a, b))
+	}
+	panic(unsupported(fmt.Sprintf("operator %s on a symbolic length", op)))
+}
+
 func constIteTree(t *smt.Term) bool {
 	if t.IsConst() {
 		return true
@@ -341,6 +404,9 @@ func (p *pathRun) symUnop(op token.Token, x value) value {
 // symConv converts a symbolic integer between integer kinds.
 func (p *pathRun) symConv(dst types.BasicKind, x symInt) value {
 	c := p.ctx
+	if x.t.Sort.K == smt.KInt {
+		return symInt{dst, x.t} // lengths fit every integer kind they are converted to
+	}
 	ws, wd := kindWidth(x.k), kindWidth(dst)
 	switch {
 	case wd == ws:
